@@ -524,5 +524,33 @@ def rule_handshake_hand_over(ctx):
     ctx.ob(R, "handshake i/o goes to the transport itself", not bad_target, "every io:: call of the handshake is made on the stream parameter" if not bad_target else
            "handshake i/o is made on %s instead of the transport parameter (an adapter with its own buffer)" % show(T.args_of(bad_target[0])[1])[:60], f.loc(bad_target[0]["t"].get("ln")) if bad_target else f.loc())
 
+def rule_no_empty_frame(ctx):
+    R = "C13.10"
+    ctx.rule(R, "no empty frame is ever produced: in poll_flush_payload the encryption of the payload buffer (TransportState::write_message) is unreachable when the payload buffer is empty - whatever else is pending. A frame carrying zero plaintext bytes decrypts to a zero-length read, which AsyncRead consumers take for end-of-stream while the writer is alive: everything flushed afterwards is lost to them")
+    f = ctx.fn(STREAM + "::poll_flush_payload")
+    T = ctx.T(f)
+    enc = [c["bb"] for c in T.calls() if c["q"].endswith("TransportState::write_message")]
+    ctx.floor(R, "encryption sites in poll_flush_payload", len(enc), 1)
 
-RULES = [("C13.9", rule_handshake_hand_over), ("C13.8", rule_read_accounting), ("C13.1", rule_constants), ("C13.2", rule_reader), ("C13.3", rule_flush_before_reuse), ("C13.4", rule_failures), ("C13.5", rule_buffer), ("C13.6", rule_write_accounting), ("C13.7", rule_flush_progress)]
+    def m(a, b):
+        def is_len(t):
+            return t[0] == "call" and t[1].endswith("bytes::Buffer::len") and chain(t[2][0])[1][-1:] == ["payload"]
+        if is_len(a) and b == ("const", 0):
+            return 1
+        if is_len(b) and a == ("const", 0):
+            return -1
+        return 0
+    if not common.atom_is_tested(ctx, f, m):
+        ctx.note("C13.10: no test of payload.len() against 0 found in poll_flush_payload - not decided")
+        ctx.ob(R, "empty payload is not encrypted", True, "undecided shape (not reported)", f.loc())
+        return
+    W = Walker(ctx, f, [Atom("cmp(payload.len(),0)", "cmp", m, ["=", ">"])])
+    names, tab = W.table({"encrypt": enc})
+    bad = "encrypt" in tab.get(("=",), set())
+    ok = not bad and "encrypt" in tab.get((">",), set())
+    ctx.ob(R, "empty payload is not encrypted", ok, "write_message is reachable only with payload.len() > 0" if ok else
+           ("poll_flush_payload can encrypt an EMPTY payload buffer (e.g. when only a frame is still pending): the peer reads a zero-length frame as end-of-stream" if bad else "the payload is never encrypted (shape not recognised)"), f.loc())
+
+
+
+RULES = [("C13.10", rule_no_empty_frame), ("C13.9", rule_handshake_hand_over), ("C13.8", rule_read_accounting), ("C13.1", rule_constants), ("C13.2", rule_reader), ("C13.3", rule_flush_before_reuse), ("C13.4", rule_failures), ("C13.5", rule_buffer), ("C13.6", rule_write_accounting), ("C13.7", rule_flush_progress)]
